@@ -7,8 +7,8 @@
    arm passes the location it got from `expr()` to the range check or the `Link` record it creates is not
    modelled; it is checked by the planted-fault oracle and the located-expression correspondence of
    lib/c14.py. *)
-From Az65 Require Import Base Token Expr CSpec ExprParse Utf8 Lexer LexerFacts Linker ExprLoc ExprLocFacts LinkLoc LinkLocFacts Trace TraceFacts ExprLocGenFacts OperandLoc OperandLocFacts LocEndToEnd.
-From Az65.Gen Require Import ExprLocArms.
+From Az65 Require Import Base Token Expr CSpec ExprParse Utf8 Lexer LexerFacts Linker ExprLoc ExprLocFacts LinkLoc LinkLocFacts Trace TraceFacts ExprLocGenFacts OperandLoc OperandLocFacts LocEndToEnd TraceGenFacts.
+From Az65.Gen Require Import ExprLocArms TraceWalk.
 
 (* (1) Positions, defined without the state machine: the character that follows a prefix q is on line
        1 + (number of line breaks in q), at column 1 + (number of characters of q after its last line
@@ -167,6 +167,16 @@ Theorem C14_undefined_symbol_reported_at_its_label_token :
     exists before c, ts = before ++ c ++ r /\ In (TLabel kk s, lm) c.
 Proof. exact undefined_symbol_reported_at_its_label_token. Qed.
 Print Assumptions C14_undefined_symbol_reported_at_its_label_token.
+
+(* (16) Tie of the include chain to the source: lib/gen_trace.py re-reads the walk of Assembler::trace_error on every run
+        (Gen/TraceWalk.v) - it starts at the current source, visits the suspended sources most recent first, prints the value
+        carried over and then takes the one of the source it is at, one frame per suspended source: the walk of Trace.frames. *)
+Theorem C14_generated_chain_walk_is_the_models :
+  gen_trace_starts_at_current = true /\ gen_trace_walks_suspended_most_recent_first = true /\
+  gen_trace_prints_carried_value = true /\ gen_trace_then_takes_the_walked_source = true /\
+  gen_trace_one_frame_per_suspended_source = true.
+Proof. exact generated_walk_is_the_models. Qed.
+Print Assumptions C14_generated_chain_walk_is_the_models.
 
 (* non-vacuity: "nop" / line break / " @db" -- the directive is at 2:2, the first line break at 1:4 *)
 Example C14_example :
